@@ -11,8 +11,11 @@ Abstract input (JSON, numbers as exact rational strings):
      "annotations": [{"clip": id, "tags": [tag id, ...],
                       "events": [{"id": n, "geom": ... | null, "tags": [tag id, ...]}, ...]}, ...]}
 
-The harness resolves a tag id to the encoder's answer (its position in the vocabulary or
-null) and tells the model the float32 value `prediction_encoding` stores for every score.
+`to_model` / `enc` / `multilabel_clip_score` below are the first-generation model request (a tag resolved to its
+position in the vocabulary by the harness, the multilabel clip score recomputed with the library's own encoder
+functions): they are kept for old replays only.  C08 and C09 send tags as *content* (`tagpool.model_pool`) and let
+the Lean model of the encoder (C19) compute the class indices; the float32 value `prediction_encoding` stores for
+every score is still computed here (`f32`).
 """
 import copy
 import os
@@ -213,10 +216,19 @@ def canon_evaluation(ev):
 
 
 # ------------------------------------------------------------------ model request
+_F32 = {}
+
+
 def f32(s):
     """the value a float32 array stores for the score (exact rational string)"""
-    with np.errstate(all="ignore"):
-        return rat(float(np.float32(float(frac(s)))))
+    v = _F32.get(s)
+    if v is None:
+        with np.errstate(all="ignore"):
+            v = rat(float(np.float32(float(frac(s)))))
+        if len(_F32) > 50000:
+            _F32.clear()
+        _F32[s] = v
+    return v
 
 
 def enc(vocab, t):
